@@ -62,7 +62,7 @@ Definition wstep_model (E : nat) (w : wstate) (o : wop) : wstate * wobs :=
   | OLatest r => (w, WStr (latest_bundle r w))
   | ODeleteRepo r => let '(c, w') := delete_repo r w in (w', WRes (rc_ok c))
   | ORename r r' => let '(c, w') := rename_repo r r' w in (w', WRes (rc_ok c))
-  | ODeleteEntries r ps => let '(c, w') := delete_entries r ps w in (w', WRes (rc_ok c))
+  | ODeleteEntries r ps => let '(c, w') := delete_entries r ps E w in (w', WRes (rc_ok c))
   | OSquash r n m sv => let '(c, w') := squash r n m sv w in (w', WRes (rc_ok c))
   end.
 
@@ -201,6 +201,12 @@ Definition c09_step_ok (s : wstep) : bool :=
                              match unpack_lists E_default (N.to_nat c) 0
                                      (fun i => match mget (GetArchivePathToBundleFileList r id (N.of_nat i)) (sn_meta a) with Some (VIndex es) => Some es | _ => None end) with
                              | Some _ => true | None => false end
+                         | _ => false end) (committed r (sn_meta b)) &&
+      (* no file list is left beside the ones the descriptor counts *)
+      forallb (fun id => match mget (GetArchivePathToBundle r id) (sn_meta a) with
+                         | Some (VBundle _ c) =>
+                             Nat.eqb (List.length (filter (fun kv => starts_with (GetArchivePathPrefixToBundles r ++ id ++ "/")%string (fst kv)) (sn_meta a)))
+                                     (S (N.to_nat c))
                          | _ => false end) (committed r (sn_meta b)) &&
       frame_ok (fun k => negb (belongs r k)) (sn_meta b) (sn_meta a) &&
       frame_ok (fun _ => true) (sn_vmeta b) (sn_vmeta a)
